@@ -20,6 +20,11 @@ CLAIMS = {
             "Decides, for every failure position, that memory/watchers never observe a write the backing store rejected and that an acknowledged "
             "write went through one bbolt Update transaction first; that loading is gated and flagged only on success. "
             "bbolt's own crash atomicity and reload equality are trusted / not decided.", "§3 C10"),
+    "C14": ("operator-table extraction and round-trip agreement + who-may-interpret + decision-table cuts (path-sensitive on the operator) on the rewrite and matcher code",
+            "Decides that the operator tables (evaluator, client and server translators) are exhaustive and compose to the identity, that "
+            "selector terms are interpreted in one place and every filtered view (List, kind-watch bootstrap and live, cache list) keeps an item "
+            "only via both predicates on that item, the Updated-event rewrite table row by row, and the combinator / indeterminate / "
+            "value-less / missing-label cases of the evaluator. The algebra over all label maps and histories is not decided.", "§3 C14"),
     "C15": ("lockset on the cache handler + path-cut on the bootstrap gate, cache-before-notify order and waiter pairing",
             "Decides that cached reads wait for the bootstrap channel, that the cache is updated before the notification entry of the same "
             "event, the append-only/silent bootstrap phase, lock discipline, copies out, and the teardown-waiter protocol (close/delete "
